@@ -13,6 +13,7 @@ import (
 	"strconv"
 	"strings"
 	"sync"
+	"sync/atomic"
 	"testing"
 	"testing/synctest"
 
@@ -169,6 +170,11 @@ type laccItem struct {
 type lacc struct{ ch chan laccItem }
 
 func (a *lacc) Accept(ctx context.Context) (channel.Channel, error) {
+	select { // results already queued come before the end of the context
+	case it := <-a.ch:
+		return it.ch, it.err
+	default:
+	}
 	select {
 	case it := <-a.ch:
 		return it.ch, it.err
@@ -455,7 +461,11 @@ func (r *loopRun) hasReturned() bool {
 func (r *loopRun) endWindow() {
 	synctest.Wait()
 	r.sc.canon()
-	lcanonObs(r.log)
+	if r.policy != "race" { // racing logs keep the real order of the observations
+		if early := lcanonObs(r.log); early != "" {
+			r.fault("Loop returned before: %s", early)
+		}
+	}
 	r.log.flush()
 	nc, nf := r.sc.counts()
 	r.log.item("parked\t%d\t%d", nc, nf)
@@ -465,7 +475,14 @@ func (r *loopRun) endWindow() {
 // stable by service instance, "return" last. Observations of one instance are
 // causally ordered and keep their order; those of different instances (several
 // servers reacting to one event) race, and the log must not depend on the race.
-func lcanonObs(l *logger) {
+func lcanonObs(l *logger) (early string) {
+	l.mu.Lock()
+	for i, w := range l.win {
+		if strings.HasPrefix(w, "o\treturn\t") && i != len(l.win)-1 {
+			early = strings.ReplaceAll(l.win[i+1], "\t", " ")
+		}
+	}
+	l.mu.Unlock()
 	key := func(line string) int {
 		f := strings.Split(line, "\t")
 		if len(f) < 2 {
@@ -491,6 +508,7 @@ func lcanonObs(l *logger) {
 	l.mu.Lock()
 	sort.SliceStable(l.win, func(i, j int) bool { return key(l.win[i]) < key(l.win[j]) })
 	l.mu.Unlock()
+	return early
 }
 
 // passed records that the goroutine of connection k is past loop.conn; n0 is the
@@ -624,6 +642,9 @@ func (r *loopRun) envGate(k int) {
 
 func (r *loopRun) callable(k int) bool {
 	s := r.st[k]
+	if r.policy == "race" { // which instance serves k is not known: a call on a failed one is simply lost
+		return s.released && !s.closed && !s.failed && !r.ctxEnded
+	}
 	return s.released && !s.asgFail && !s.closed && !s.failed && !r.ctxEnded
 }
 
@@ -687,6 +708,149 @@ func (r *loopRun) step() {
 			break
 		}
 		x -= a.w
+	}
+	r.schedule()
+}
+
+// raceGroup performs 1-4 env actions back to back, WITHOUT waiting for quiescence
+// in between (the accepter's results are queued, so Loop may find a connection
+// and the accepter's failure one right after the other); then one quiescence.
+func (r *loopRun) raceGroup(n int) {
+	g := r.g
+	did := 0
+	for i := 0; i < n; i++ {
+		var openK, callK, gateK []int
+		for k := range r.conns {
+			if r.open(k) {
+				openK = append(openK, k)
+			}
+			if r.callable(k) && r.gated(k) < 2 {
+				callK = append(callK, k)
+			}
+			if r.gated(k) > 0 {
+				gateK = append(gateK, k)
+			}
+		}
+		type act struct {
+			w  int
+			do func()
+		}
+		var acts []act
+		if r.accepting && len(r.conns) < lMaxConns {
+			acts = append(acts, act{6, func() {
+				k := len(r.conns)
+				r.log.item("env\taccept\t%d", k)
+				c := lnewConn(k)
+				r.conns = append(r.conns, c)
+				r.st = append(r.st, &lconnState{})
+				r.acc.ch <- laccItem{ch: c}
+			}})
+		}
+		if r.accepting && len(r.conns) > 0 {
+			acts = append(acts, act{3, func() {
+				if g.chance(1, 2) {
+					r.log.item("env\taerr\tother")
+					r.acc.ch <- laccItem{err: lErrAccept}
+				} else {
+					r.log.item("env\taerr\tclosing")
+					r.acc.ch <- laccItem{err: lErrClosing}
+				}
+				r.accepting = false
+			}})
+		}
+		if !r.ctxEnded && len(r.conns) > 0 {
+			acts = append(acts, act{1, func() {
+				r.log.item("env\tctxend")
+				r.cancel()
+				r.ctxEnded, r.accepting = true, false
+			}})
+		}
+		if len(openK) > 0 {
+			acts = append(acts, act{3, func() {
+				k := pick(g, openK)
+				r.log.item("env\tclose\t%d", k)
+				r.conns[k].clientClose()
+				r.st[k].closed = true
+			}})
+			acts = append(acts, act{1, func() {
+				k := pick(g, openK)
+				r.log.item("env\tpfail\t%d", k)
+				r.conns[k].fail()
+				r.st[k].failed = true
+			}})
+		}
+		if len(callK) > 0 {
+			acts = append(acts, act{3, func() {
+				k := pick(g, callK)
+				r.log.item("env\tcall\t%d", k)
+				r.conns[k].clientCall()
+			}})
+		}
+		if len(gateK) > 0 {
+			acts = append(acts, act{3, func() {
+				k := pick(g, gateK)
+				r.log.item("env\tgate\t%d", k)
+				r.mu.Lock()
+				gate := r.gates[k][0]
+				r.gates[k] = r.gates[k][1:]
+				r.mu.Unlock()
+				close(gate)
+			}})
+		}
+		if len(acts) == 0 {
+			break
+		}
+		did++
+		total := 0
+		for _, a := range acts {
+			total += a.w
+		}
+		x := g.intn(total)
+		for _, a := range acts {
+			if x < a.w {
+				a.do()
+				break
+			}
+			x -= a.w
+		}
+	}
+	if did == 0 {
+		return
+	}
+	r.endWindow()
+	for _, s := range r.st {
+		s.released = true
+	}
+}
+
+// firstCause scripts the history in which the cause of a server's exit is
+// decided long before the exit: a call whose handler ignores cancellation, then
+// the client goes away (or the transport fails), then the context ends, and only
+// then does the handler return.
+func (r *loopRun) firstCause(pfail bool) {
+	if !r.accepting || len(r.conns) >= lMaxConns {
+		return
+	}
+	k := len(r.conns)
+	r.envAccept()
+	r.drain()
+	if !r.callable(k) {
+		return
+	}
+	r.envCall(k)
+	r.schedule()
+	if pfail {
+		r.envPfail(k)
+	} else {
+		r.envClose(k)
+	}
+	r.schedule()
+	if !r.ctxEnded {
+		r.envCtxEnd()
+		r.schedule()
+	}
+	for r.gated(k) > 0 {
+		r.envGate(k)
 	}
 	r.schedule()
 }
@@ -790,12 +954,14 @@ func lbubbleGoroutines() int {
 
 func runLoopScenario(t *testing.T, fam string, seed uint64, idx int, out *bufio.Writer) {
 	g := newRng(seed*1000003 + uint64(idx))
-	policy, hooks := "random", true
-	switch idx % 3 {
+	policy, hooks, cfg := "random", true, "1"
+	switch idx % 4 {
 	case 0:
-		policy, hooks = "nohook", false
+		policy, hooks, cfg = "nohook", false, "0"
 	case 1:
 		policy = "fifo"
+	case 3:
+		policy, hooks, cfg = "race", false, "2"
 	}
 	synctest.Test(t, func(t *testing.T) {
 		base := lbubbleGoroutines()
@@ -804,16 +970,32 @@ func runLoopScenario(t *testing.T, fam string, seed uint64, idx int, out *bufio.
 			sc:        &lsched{on: hooks},
 			g:         g,
 			policy:    policy,
-			acc:       &lacc{ch: make(chan laccItem)},
+			acc:       &lacc{ch: make(chan laccItem, 16)},
 			accepting: true,
 		}
+		var perturb atomic.Uint64
+		perturb.Store(g.next())
 		jrpc2.VerifSetHook(func(site string) {
-			if strings.HasPrefix(site, "loop.") {
-				r.sc.point(site)
+			if !strings.HasPrefix(site, "loop.") {
+				return
 			}
+			if policy == "race" { // yield at a pseudo-random subset of the points
+				x := perturb.Add(0x9e3779b97f4a7c15)
+				x ^= x >> 29
+				switch x % 4 {
+				case 0:
+					runtime.Gosched()
+				case 1:
+					runtime.Gosched()
+					runtime.Gosched()
+					runtime.Gosched()
+				}
+				return
+			}
+			r.sc.point(site)
 		})
 		defer jrpc2.VerifSetHook(nil)
-		r.log.item("cfg\t%s", b01(hooks))
+		r.log.item("cfg\t%s", cfg)
 		r.log.item("scenario\t%s\t%d\t%d\t%s", fam, seed, idx, policy)
 
 		// every decision that a goroutine of the library consumes is drawn up front
@@ -829,10 +1011,12 @@ func runLoopScenario(t *testing.T, fam string, seed uint64, idx int, out *bufio.
 		if g.chance(1, 6) {
 			earlyStep, earlyKind = g.intn(3), g.intn(3)
 		}
+		scripted, scriptedFail, scriptedAt := g.chance(1, 4), g.chance(1, 2), g.intn(3)
+		preQueue, preConns, preErr := g.chance(1, 2), 1+g.intn(3), g.intn(3)
 
 		ctx, cancel := context.WithCancel(context.Background())
 		r.cancel = cancel
-		go func() {
+		loopMain := func() {
 			err := server.Loop(ctx, r.acc, r.newService, &server.LoopOptions{ServerOptions: &jrpc2.ServerOptions{Concurrency: 4}})
 			v := "nil"
 			if err != nil {
@@ -846,11 +1030,44 @@ func runLoopScenario(t *testing.T, fam string, seed uint64, idx int, out *bufio.
 			r.mu.Lock()
 			r.returned = true
 			r.mu.Unlock()
-		}()
-		synctest.Wait()
+		}
+		if policy == "race" && preQueue {
+			// the accepter already holds connections and its failure when Loop starts
+			for j := 0; j < preConns; j++ {
+				k := len(r.conns)
+				r.log.item("env\taccept\t%d", k)
+				c := lnewConn(k)
+				r.conns = append(r.conns, c)
+				r.st = append(r.st, &lconnState{})
+				r.acc.ch <- laccItem{ch: c}
+			}
+			switch preErr {
+			case 0:
+				r.log.item("env\taerr\tother")
+				r.acc.ch <- laccItem{err: lErrAccept}
+				r.accepting = false
+			case 1:
+				r.log.item("env\taerr\tclosing")
+				r.acc.ch <- laccItem{err: lErrClosing}
+				r.accepting = false
+			}
+		}
+		go loopMain()
+		if policy == "race" {
+			r.endWindow()
+			for _, s := range r.st {
+				s.released = true
+			}
+		} else {
+			synctest.Wait()
+		}
 
 		for i := 0; i < n; i++ {
 			switch {
+			case policy == "race":
+				r.raceGroup(1 + g.intn(4))
+			case scripted && i == scriptedAt:
+				r.firstCause(scriptedFail)
 			case i == earlyStep && (r.accepting || !r.ctxEnded):
 				switch {
 				case earlyKind == 0 || !r.accepting:
